@@ -14,6 +14,7 @@ import (
 	"errors"
 	"fmt"
 	"hash/fnv"
+	"mellium.im/xmpp/verifharness/props/c10"
 	"regexp"
 	"runtime"
 	"sort"
@@ -192,11 +193,57 @@ type handlerLog struct {
 	abandoned int // handler invocations that stopped in the middle of their reply
 }
 
+// ownCases is the number of transmit histories; after them come histories of
+// the C10 workload (transmit calls racing with Close, Serve's shutdown and
+// failing transports), of whose oracle the part that is this property is kept:
+// a call that returned nil has its element on the wire, whole, in a
+// well-formed stream, with nothing after the closing tag.
+func ownCases(tier string) int {
+	if tier == "thorough" {
+		return 400
+	}
+	return 48
+}
+
+func closeCases(tier string) int {
+	if tier == "thorough" {
+		return 3000
+	}
+	return 90
+}
+
+func keepClose(key string) bool {
+	for _, p := range []string{"close:ok-not-on-wire", "close:malformed", "close:after-tag", "close:written-after", "panic:", "fatal:", "race:"} {
+		if strings.HasPrefix(key, p) {
+			return true
+		}
+	}
+	return false
+}
+
 func run(c *core.Case) {
+	if own := ownCases(c.Tier); c.Index >= own {
+		// (the first cases of C10 are its forced scenarios, run here too)
+		c.Count("histories_with_transmits_racing_close", 1)
+		c.RunSub(c10.Prop(), c.Index-own, keepClose)
+		return
+	}
+	runHistory(c)
+}
+
+func runHistory(c *core.Case) {
 	r := c.Rand
 	thorough := c.Tier == "thorough"
 	o := sess.Opts{S2S: r.Intn(2) == 0}
 	if r.Intn(6) == 0 {
+		// negotiated by the library's default negotiator; the peer's header may
+		// leave out its to attribute
+		o.Default, o.PeerOmitsTo = true, r.Intn(3) != 0
+		c.Count("sessions_from_the_default_negotiator", 1)
+		if o.PeerOmitsTo && o.S2S {
+			c.Count("s2s_sessions_whose_peer_header_omits_to", 1)
+		}
+	} else if r.Intn(6) == 0 {
 		// a stream with another content namespace (XEP-0114 component)
 		o = sess.Opts{Component: true, Local: "comp.example.net", Remote: "example.net"}
 		c.Count("component_streams", 1)
@@ -686,7 +733,7 @@ func trunc(s string) string {
 
 // Prop returns the C05 check.
 func Prop() *core.Prop {
-	req := []string{"histories", "histories_with_partial_failure", "partial:Send:reader-fails", "partial:SendElement:payload-reader-fails", "partial:Encode:xmlstream.Marshaler-fails", "partial:Encode:xmlstream.WriterTo-fails", "partial:TokenWriter:closed-mid-element", "component_streams", "invalid_argument_calls", "incoming_stanzas_nobody_answers", "handler_replies_after_refused_writes", "handler_replies_abandoned_in_mid_element", "calls_overlapping_another_actor", "elements_spanning_several_writes", "auto_replies", "wire_stanzas"}
+	req := []string{"histories", "histories_with_transmits_racing_close", "C10/transmits_overlapping_a_close", "sessions_from_the_default_negotiator", "s2s_sessions_whose_peer_header_omits_to", "histories_with_partial_failure", "partial:Send:reader-fails", "partial:SendElement:payload-reader-fails", "partial:Encode:xmlstream.Marshaler-fails", "partial:Encode:xmlstream.WriterTo-fails", "partial:TokenWriter:closed-mid-element", "component_streams", "invalid_argument_calls", "incoming_stanzas_nobody_answers", "handler_replies_after_refused_writes", "handler_replies_abandoned_in_mid_element", "calls_overlapping_another_actor", "elements_spanning_several_writes", "auto_replies", "wire_stanzas"}
 	for _, e := range []string{"Send", "SendElement", "Encode", "EncodeElement", "TokenWriter", "HandlerReply",
 		"SendIQ", "SendIQElement", "EncodeIQ", "EncodeIQElement", "UnmarshalIQ", "UnmarshalIQElement", "IterIQ", "IterIQElement",
 		"SendMessage", "SendMessageElement", "EncodeMessage", "EncodeMessageElement",
@@ -698,19 +745,14 @@ func Prop() *core.Prop {
 		Level: core.Exploration,
 		Race:  true,
 		Units: "calls_ok",
-		Rule:  "each case is one served session (c2s or s2s) with 2-8 sender goroutines issuing PRNG-chosen calls over all 21 transmit entry points and argument forms (token slices, decoder-backed readers with explicit xmlns attributes, struct-tag values, xml.Marshaler, xmlstream.Marshaler, WriterTo, stanza values; with/without id, from, namespace; nested stanza-named children; payloads up to 256 KiB) while the peer injects IQs whose handler replies through EncodeToken/Encode/EncodeElement or not at all; every element carries a unique marker. Offline oracle: independent re-parse of the peer-side bytes, one element per successful call, tree equality up to the completions the property allows. Non-trivial = a call that returned nil; distinct = (entry point, argument form, size class, stanza?, s2s?) plus distinct wire-order signatures (sequence of actor ids).",
+		Rule:  "most cases are one served session (c2s, s2s, a component stream, or negotiated by the default negotiator with a peer header that omits its to attribute) with 2-8 sender goroutines issuing PRNG-chosen calls over all 21 transmit entry points and argument forms (token slices, decoder-backed readers with explicit xmlns attributes, struct-tag values, xml.Marshaler, xmlstream.Marshaler, WriterTo, stanza values; with/without id, from, namespace; nested stanza-named children; payloads up to 256 KiB) while the peer injects IQs whose handler replies through EncodeToken/Encode/EncodeElement or not at all; every element carries a unique marker. After the histories of this workload come histories of the C10 workload (transmit calls overlapping Close calls, Serve's shutdown, write faults), of which the keys about elements of successful calls are kept (prefix C10/ in counters and signatures). Offline oracle: independent re-parse of the peer-side bytes, one element per successful call, tree equality up to the completions the property allows. Non-trivial = a call that returned nil; distinct = (entry point, argument form, size class, stanza?, s2s?) plus distinct wire-order signatures (sequence of actor ids).",
 		Assumptions: []string{
 			"a child element with an empty namespace inside a namespaced parent denotes the parent's namespace (encoding/xml's Encoder cannot write xmlns=\"\")",
 			"type=\"\" and an absent type attribute denote the same stanza",
 			"for values encoded through encoding/xml (struct tags, xml.Marshaler) the expected tree is what the standard encoder produces for the value (and start element)",
 			"calls that returned an error are not judged",
 		},
-		Cases: func(tier string) int {
-			if tier == "thorough" {
-				return 400
-			}
-			return 48
-		},
+		Cases:         func(tier string) int { return ownCases(tier) + closeCases(tier) },
 		Run:           run,
 		Witnesses:     map[string]func(*core.Case){"wire:Encode:unflushed:xmlstream.WriterTo": witnessWriterTo},
 		Require:       req,
